@@ -115,6 +115,11 @@ func runOne(prop string, pd *propDef, seed uint64, idx int64, tier string, sc *S
 		o.Verdict = "violation"
 	case rd.Res.Verdict == "budget":
 		o.Verdict = "inconclusive"
+	case rd.Res.Verdict == "deadlock" || rd.Res.Verdict == "no-progress":
+		// some call never returned and this property's oracle had nothing to say about it
+		// (C10, C13 and C20 turn these verdicts into violations themselves): never "ok" -
+		// the orchestrator reports such runs loudly (exit 2)
+		o.Verdict = "inconclusive"
 	default:
 		o.Verdict = "ok"
 	}
